@@ -26,6 +26,17 @@ CHECKS = {
     },
 }
 
+CHECKS["C08"] = {
+    "text": "TLC explores the complete reachable graph of Library.tla (block list + two key indexes; add/remove/replace "
+            "with single, list, positional-wrapper and fail_on_duplicate_key arguments over a universe with colliding "
+            "keys, structurally equal copies and cross-index keys), checks Consistent in every state and the action "
+            "property RaiseKeeps; every edge (4.6e5 quick, 4.4e6 thorough) is replayed on a real Library comparing the "
+            "outcome and all eight views; random histories (depth 30-200, 23-object universe) are validated by a TLC "
+            "trace spec that accepts only the ideal actions plus the named deviation AddRaiseAfterInsert (known finding).",
+    "ref": "6/C08", "technique": "TLA+ spec (Library.tla) + TLC complete-graph edge replay + TLC trace validation",
+    "note": TB + "; exhaustive only within MaxLen=3 and the 5/9-object universe; longer histories are sampled",
+}
+
 NOT_APPLICABLE = {}
 for _e in ENGINES:
     _e["serves_properties"] = sorted(CHECKS)
